@@ -306,6 +306,7 @@ pub fn settle(t: &Timing, mut pending: impl FnMut() -> Option<String>, mut finge
     loop {
         rounds += 1;
         if rounds > 64 {
+            if std::env::var_os("E_C18_DEBUG").is_some() { eprintln!("settle: 64 rounds with changes"); }
             return Settled::Unstable;
         }
         let start = Instant::now();
@@ -340,6 +341,7 @@ pub fn settle(t: &Timing, mut pending: impl FnMut() -> Option<String>, mut finge
                 same = 0;
             }
             if start.elapsed() > t.watchdog + Duration::from_secs(2) {
+                if std::env::var_os("E_C18_DEBUG").is_some() { eprintln!("settle: fingerprint kept changing for watchdog+2s (round {rounds})"); }
                 return Settled::Unstable;
             }
         }
